@@ -213,6 +213,10 @@ func solveAll(prelude string, encs []*FnEnc, dir string, timeoutSec, workers int
 	n := 0
 	for _, f := range encs {
 		for _, ob := range f.obls {
+			if ob.Result != nil && ob.Result.Status == "known" {
+				n++
+				continue
+			}
 			jobs = append(jobs, job{f, ob, n})
 			n++
 		}
